@@ -2,9 +2,12 @@
 //
 // stdin: one case per line:  <id> <n> <delay_us> <script>
 //   script = comma separated outcomes, the i-th being what call i returns:
-//     e        -> (nil, err_i)
+//     e        -> (nil, err_i)           ec / ed / et: err_i is a *url.Error wrapping context.Canceled /
+//                                         context.DeadlineExceeded / a net.Error whose Timeout() is true
 //     E<code>  -> (resp_i with StatusCode code, err_i)
-//     <code>   -> (resp_i with StatusCode code, nil)
+//     <code>   -> (resp_i with StatusCode code, nil)      <code>r<secs>: the response carries Retry-After: <secs>
+//   several scripts separated by '|' = several requests, one after the other, through ONE middleware
+//   instance (the observation fields of the requests are then separated by " ; ")
 //   calls beyond the script return (nil, err) with identity -1 ("e").
 // stdout: <id> <calls> <resp identity or -> <err identity or -> <sleeps> <first_gap_ok>
 //   identity of a response/error = index of the call that produced it.
@@ -14,7 +17,9 @@ package main
 
 import (
 	"bufio"
+	"context"
 	"fmt"
+	"net/url"
 	"io"
 	"log"
 	"net/http"
@@ -35,7 +40,15 @@ type outcome struct {
 	hasResp bool
 	code    int
 	hasErr  bool
+	errKind byte   // 0 plain, 'c' canceled, 'd' deadline, 't' timeout net.Error
+	retryAfter string
 }
+
+type timeoutErr struct{ idx int }
+
+func (e *timeoutErr) Error() string   { return fmt.Sprintf("scripted timeout %d", e.idx) }
+func (e *timeoutErr) Timeout() bool   { return true }
+func (e *timeoutErr) Temporary() bool { return true }
 
 type scripted struct {
 	script []outcome
@@ -61,11 +74,23 @@ func (s *scripted) RoundTrip(req *http.Request) (*http.Response, error) {
 	var resp *http.Response
 	var err error
 	if o.hasResp {
-		resp = &http.Response{StatusCode: o.code, Body: http.NoBody}
+		resp = &http.Response{StatusCode: o.code, Body: http.NoBody, Header: http.Header{}}
+		if o.retryAfter != "" {
+			resp.Header.Set("Retry-After", o.retryAfter)
+		}
 		s.resps[resp] = idx
 	}
 	if o.hasErr {
-		err = &scriptedErr{idx}
+		switch o.errKind {
+		case 'c':
+			err = &url.Error{Op: "Get", URL: "http://example.invalid/x", Err: context.Canceled}
+		case 'd':
+			err = &url.Error{Op: "Get", URL: "http://example.invalid/x", Err: context.DeadlineExceeded}
+		case 't':
+			err = &url.Error{Op: "Get", URL: "http://example.invalid/x", Err: &timeoutErr{idx}}
+		default:
+			err = &scriptedErr{idx}
+		}
 		s.errs[err] = idx
 	}
 	s.ends = append(s.ends, time.Now())
@@ -81,6 +106,8 @@ func parseScript(s string) []outcome {
 		switch {
 		case t == "e":
 			out = append(out, outcome{hasErr: true})
+		case t == "ec" || t == "ed" || t == "et":
+			out = append(out, outcome{hasErr: true, errKind: t[1]})
 		case strings.HasPrefix(t, "E"):
 			c, err := strconv.Atoi(t[1:])
 			if err != nil {
@@ -88,11 +115,15 @@ func parseScript(s string) []outcome {
 			}
 			out = append(out, outcome{hasResp: true, code: c, hasErr: true})
 		default:
+			ra := ""
+			if i := strings.IndexByte(t, 'r'); i > 0 {
+				t, ra = t[:i], t[i+1:]
+			}
 			c, err := strconv.Atoi(t)
 			if err != nil {
 				panic(err)
 			}
-			out = append(out, outcome{hasResp: true, code: c})
+			out = append(out, outcome{hasResp: true, code: c, retryAfter: ra})
 		}
 	}
 	return out
@@ -108,8 +139,22 @@ func runCase(line string) string {
 	if len(f) > 3 {
 		sc = f[3]
 	}
-	s := &scripted{script: parseScript(sc), resps: map[*http.Response]int{}, errs: map[error]int{}}
-	rt := middleware.RetryMiddleware(n, d)(s)
+	scripts := strings.Split(sc, "|")
+	cur := &scripted{}
+	// one middleware instance for all requests of the case; the transport behind it serves the current script
+	rt := middleware.RetryMiddleware(n, d)(middleware.RoundTripper(func(r *http.Request) (*http.Response, error) {
+		return cur.RoundTrip(r)
+	}))
+	var parts []string
+	for _, one := range scripts {
+		s := &scripted{script: parseScript(one), resps: map[*http.Response]int{}, errs: map[error]int{}}
+		cur = s
+		parts = append(parts, observe(rt, s, d))
+	}
+	return id + " " + strings.Join(parts, " ; ")
+}
+
+func observe(rt http.RoundTripper, s *scripted, d time.Duration) string {
 	req, _ := http.NewRequest("GET", "http://example.invalid/x", nil)
 	start := time.Now()
 	resp, err := rt.RoundTrip(req)
@@ -138,7 +183,7 @@ func runCase(line string) string {
 	if len(s.starts) > 0 && s.starts[0].Sub(start) >= d {
 		first = 0
 	}
-	return fmt.Sprintf("%s %d %s %s %d %d", id, s.calls, rs, es, sleeps, first)
+	return fmt.Sprintf("%d %s %s %d %d", s.calls, rs, es, sleeps, first)
 }
 
 func main() {
